@@ -43,6 +43,7 @@ type asmPart struct {
 	id                               int
 	always, unpackF, parentF, placeF bool
 	mount                            bool // a mount-type input (placed by BindPlacer directly) whose host source does not exist
+	cancel                           bool // the caller's context is cancelled while this input is being placed (the placement succeeds)
 }
 
 // asm15Exec: recipe "asm15 <failing janitor ids|-> <id,alwaysTry,unpackF,parentF,placeF;...> <listing order>"
@@ -63,7 +64,7 @@ func asm15Exec(c *Ctx, op string) {
 		x := strings.Split(t, ",")
 		var id int
 		fmt.Sscan(x[0], &id)
-		parts = append(parts, asmPart{id, x[1] == "1", x[2] == "1", x[3] == "1", x[4] != "0", x[4] == "2"})
+		parts = append(parts, asmPart{id, x[1] == "1", x[2] == "1", x[3] == "1", x[4] == "1" || x[4] == "2", x[4] == "2", x[4] == "3"})
 	}
 	var order []int
 	for _, t := range strings.Split(f[3], ",") {
@@ -78,6 +79,7 @@ func asm15Exec(c *Ctx, op string) {
 	os.MkdirAll(root, 0755)
 	var log []string
 	var mu sync.Mutex
+	var cancelRun func()
 	byWare := map[string]asmPart{}
 	byID := map[int]asmPart{}
 	pathOf := func(p asmPart) string {
@@ -108,8 +110,14 @@ func asm15Exec(c *Ctx, op string) {
 		if p.placeF {
 			return nil, Errorf(rio.ErrAssemblyInvalid, "injected placement failure %d", id)
 		}
+		if p.cancel {
+			cancelRun()
+		}
 		return fakeJanitor{id: id, always: p.always, fail: fails[id], log: &log, mu: &mu}, nil
 	}
+	runCtx, cancelRun0 := context.WithCancel(context.Background())
+	cancelRun = cancelRun0
+	defer cancelRun0()
 	asm := stitch.NewAssemblerForVerif(osfs.New(fs.MustAbsolutePath(filepath.Join(base, "cache"))), unpackTool, placerTool)
 	var specs []stitch.UnpackSpec
 	for _, i := range order {
@@ -132,7 +140,7 @@ func asm15Exec(c *Ctx, op string) {
 				pan = fmt.Sprint(r)
 			}
 		}()
-		cleanup, err = asm.Run(context.Background(), osfs.New(fs.MustAbsolutePath(root)), specs, fs.Metadata{Type: fs.Type_Dir, Perms: 0755, Mtime: fs.DefaultTime})
+		cleanup, err = asm.Run(runCtx, osfs.New(fs.MustAbsolutePath(root)), specs, fs.Metadata{Type: fs.Type_Dir, Perms: 0755, Mtime: fs.DefaultTime})
 	}()
 	res := "ok"
 	if pan != "" {
@@ -173,7 +181,7 @@ func asm15Exec(c *Ctx, op string) {
 		tdErr = terr != nil
 		out += fmt.Sprintf(" td=%s tderr=%v", strings.Join(tdLog, ","), tdErr)
 	}
-	c.EmitR(op, "asm15 "+f[1]+" "+strings.ReplaceAll(f[2], ",2", ",1"), out)
+	c.EmitR(op, "asm15 "+f[1]+" "+strings.ReplaceAll(strings.ReplaceAll(f[2], ",2", ",1"), ",3", ",0"), out)
 	// ---- C15 oracle, written directly from the property statement (independent of the Lean model) ----
 	// which inputs got placed before the first failing step
 	var placed []asmPart
@@ -207,6 +215,22 @@ func asm15Exec(c *Ctx, op string) {
 			}
 		}
 		return want
+	}
+	if !anyUnpackFail && failedAt < 0 && res == "failed" {
+		var placedNow []asmPart
+		var tds []string
+		for _, e := range runLog {
+			var id int
+			if strings.HasPrefix(e, "X") {
+				fmt.Sscanf(e, "X%d", &id)
+				placedNow = append(placedNow, byID[id])
+			} else if strings.HasPrefix(e, "A") {
+				tds = append(tds, e)
+			}
+		}
+		if want := expectTeardown(placedNow); strings.Join(tds, ",") != strings.Join(want, ",") {
+			c.PropFail("no-rollback", fmt.Sprintf("the assembly failed (%v) after %d placements: teardown attempts %v, want %v", err, len(placedNow), tds, want), op)
+		}
 	}
 	if anyUnpackFail {
 		if res != "failed" || len(runLog) != 0 {
@@ -291,6 +315,8 @@ func asm15Engine(c *Ctx) {
 					x = "1"
 				case 4:
 					x = "2"
+				case 5:
+					x = "3"
 				}
 			}
 			ps = append(ps, fmt.Sprintf("%d,%d,%s,%s,%s", i, (always>>uint(i))&1, u, p, x))
@@ -317,7 +343,7 @@ func asm15Engine(c *Ctx) {
 		for always := 0; always < 1<<uint(n); always++ {
 			for tdmask := 0; tdmask < 1<<uint(n); tdmask++ {
 				emit(n, always, 0, -1, tdmask)
-				for step := 1; step <= 4; step++ {
+				for step := 1; step <= 5; step++ {
 					for idx := 0; idx < n; idx++ {
 						emit(n, always, step, idx, tdmask)
 					}
@@ -331,7 +357,7 @@ func asm15Engine(c *Ctx) {
 		k = 1500
 	}
 	for i := 0; i < k; i++ {
-		step := c.Intn(5)
+		step := c.Intn(6)
 		idx := -1
 		if step > 0 {
 			idx = c.Intn(5)
